@@ -2,7 +2,10 @@
 
 package serf
 
-import "sort"
+import (
+	"sort"
+	"time"
+)
 
 // Read-only projection of the membership state (added to package serf by the overlay).
 
@@ -59,3 +62,16 @@ func (s *Serf) VerifInnerEventCh() chan<- Event { return s.config.EventCh }
 
 // VerifBroadcastJoin is the tail of Serf.Join after a successful memberlist join.
 func (s *Serf) VerifBroadcastJoin() error { return s.broadcastJoin(s.clock.Time()) }
+
+// VerifAgeIntents makes the buffered intents of the named nodes look d older: the passage of wall time as the
+// reaper's reapIntents pass sees it (the harness cannot wait out RecentIntentTimeout).
+func (s *Serf) VerifAgeIntents(names []string, d time.Duration) {
+	s.memberLock.Lock()
+	defer s.memberLock.Unlock()
+	for _, n := range names {
+		if in, ok := s.recentIntents[n]; ok {
+			in.WallTime = in.WallTime.Add(-d)
+			s.recentIntents[n] = in
+		}
+	}
+}
